@@ -524,8 +524,6 @@ def run_generic(res, rep, dname, lv, lname, tag, X, y, terms):
         return holder[0].fit(X, y)
     obs, text = observe(go, X)
     fid = None
-    if obs == 'OAE' and lname == 'logit' and dname != 'binomial' and "has no attribute 'levels'" in text:
-        fid = 'C11-S20-logit-link-needs-levels'          # candidate id (reported, not yet a known finding)
     if obs == 'ORetNonFinite':
         try:
             with warnings.catch_warnings():
@@ -536,8 +534,19 @@ def run_generic(res, rep, dname, lv, lname, tag, X, y, terms):
             coef_ok = bool(np.isfinite(g.coef_).all())
             text += '; coef_ finite=%s, %d of %d training predictions non-finite, min linear predictor %.3g' % (
                 coef_ok, int((~np.isfinite(mu)).sum()), len(mu), float(np.min(lp)))
-            if lname == 'inv_squared' and coef_ok and bool(((~np.isfinite(mu)) == (lp <= 0)).all()):
-                fid = 'C11-S21-inv-squared-negative-predictor'   # candidate id (reported, not yet a known finding)
+            bad = ~np.isfinite(mu)
+            # the finite range of the inverse link: lp > 0 for inverse / inv_squared, no exp overflow for log / logit
+            if lname in ('inverse', 'inv_squared'):
+                outside = lp <= 0
+            elif lname in ('log', 'logit'):
+                with np.errstate(over='ignore'):
+                    outside = ~np.isfinite(np.exp(np.abs(lp)))
+            else:
+                outside = np.zeros(len(lp), dtype=bool)
+            if coef_ok and bool(bad.any()) and bool((bad == outside).all()):
+                # known finding S21: finite coefficients, but the training rows whose final linear predictor lies outside
+                # the finite range of the inverse link predict NaN/Inf (_mask dropped them silently in every iteration)
+                fid = 'C11-S21-nonfinite-training-predictions'
         except Exception as e:
             text += '; (diagnosis failed: %s)' % type(e).__name__
     res.case(('generic', rep, dname, lv, lname, tag), nontrivial=True)
@@ -554,6 +563,41 @@ def run_generic(res, rep, dname, lv, lname, tag, X, y, terms):
             expected='ValueError (incl. OptimizationError) or finite coef_ and finite training predictions',
             observed=text, finding=fid))
     return obs
+
+
+def regression_probes(res, rng):
+    """former witnesses of repaired defects (S20 logit link with a non-binomial distribution, S22 fit_quantile weights
+    after an immediate break): must now satisfy the property; an untagged violation otherwise."""
+    from pygam import GAM, ExpectileGAM, s
+    n = N
+    X = np.array([[rng.randint(0, 64) / 64.0] for _ in range(n)])
+    y01 = np.clip(0.1 + 0.8 * X[:, 0] + np.array([rng.randint(-4, 4) / 64.0 for _ in range(n)]), 0.05, 0.95)
+    for dname in ('normal', 'poisson', 'gamma', 'inv_gauss'):
+        yy = np.round(y01) if dname == 'poisson' else y01
+        obs, text = observe(lambda: GAM(s(0, n_splines=5), distribution=dname, link='logit').fit(X, yy), X)
+        res.case(('regression-S20', dname), nontrivial=True)
+        res.count('regression-S20:%s' % obs)
+        if obs not in ('OVE', 'ORetFinite'):
+            res.violations.append(dict(
+                what='regression of C11-S20: GAM(distribution=%s, link=logit).fit on valid targets in [0, 1]' % dname,
+                input=dict(cls='GAM', distribution=dname, link='logit', seed=res.seed, X=X.tolist(), y=yy.tolist()),
+                expected='ValueError or a finite model', observed=text, finding=None))
+    y = 0.5 + X[:, 0] + np.array([rng.randint(-8, 8) / 32.0 for _ in range(n)])
+    ex = ExpectileGAM(s(0, n_splines=5)).fit(X, y)
+    q = min(max(float((ex.predict(X) > y).mean()), 0.02), 0.98)
+    wbad = {'all-nan': np.full(n, np.nan), 'one-inf': np.where(np.arange(n) == n // 2, np.inf, 1.0), 'short': np.ones(n - 3),
+            'length-1': np.ones(1)}
+    for tag, w in wbad.items():
+        m = copy.deepcopy(ex)
+        obs, text = observe(lambda: m.fit_quantile(X, y, quantile=q, tol=0.03, weights=w), X)
+        res.case(('regression-S22', tag), nontrivial=True)
+        res.count('regression-S22:%s' % obs)
+        if obs != 'OVE':
+            res.violations.append(dict(
+                what='regression of C11-S22: fit_quantile on a fitted model whose ratio is already within tol, weights=<%s>' % tag,
+                input=dict(cls='ExpectileGAM', method='fit_quantile', quantile=q, tol=0.03, weights=np.asarray(w).tolist(),
+                           seed=res.seed, X=X.tolist(), y=y.tolist()),
+                expected='ValueError', observed=text, finding=None))
 
 
 def nasty_finding(cls, tag, obs, text):
@@ -600,6 +644,7 @@ def run(res):
     cases, meta = entry_stream(res, rng, entries, excs)
     nasty_fits(res, rng)
     generic_gam_fits(res, common.rng_for(res.seed, PROP, 'generic'))
+    regression_probes(res, common.rng_for(res.seed, PROP, 'regression'))
     with common.CaseDir(PROP) as cd:
         failing, errors = common.run_bool_cases(cd, HEADER, cases, 'check_case', shard=150)
     for name, out in errors:
